@@ -382,7 +382,7 @@ impl Opener for OLmdb {
         let env = s.handle().env().clone();
         drop(s);
         let _ = tokio::task::spawn_blocking(move || {
-            let deadline = std::time::Instant::now() + Duration::from_secs(5);
+            let deadline = std::time::Instant::now() + Duration::from_secs(60);
             while plain_threads() > 1 + LMDB_OPEN.load(Ordering::SeqCst).saturating_sub(1) as usize && std::time::Instant::now() < deadline {
                 std::thread::sleep(Duration::from_micros(200));
             }
